@@ -1,6 +1,6 @@
 (** C14: the run-time panic sites of the admission / governance-execution code that the model
     accounts for, in the vocabulary of the generated inventory Gen/PanicSites.v:
-    (function, kind, expression text, number of occurrences; kinds: assert, index, slice, panic, indexwrite, div, make, nilptr, nilfield = a selection x.f.g through a struct field inside logging code, which runs only at that log level), plus how each is accounted for:
+    (function, kind, expression text, number of occurrences; kinds: assert, index, slice, panic, indexwrite, div, make, nilptr, nilfield = a selection x.f.g through a struct field inside logging code, which runs only at that log level, nilresult = a function with a pointer first result and an error last result that can return (nil, nil): literal, or a `var x *T` not assigned on every path to `return x, nil`; none at HEAD -- name.SetContractOwner assigns ownerState on every path, its caller ExecuteNameTx calls ownerState.PutState() unconditionally, so such a site there would be a Panic outcome), plus how each is accounted for:
       "model"     explicit [Panic] outcome in Model.v, proved unreachable in Theorems.v
       "map"       Go map index (cannot panic)
       "reviewed"  argued by hand (reason in the comment), outside the theorems
